@@ -21,6 +21,8 @@ def run(ctx):
                    'cleanup run them on every path', floor=6)
     chk.rule('S3', 'data sources read the call\'s data only through the per-call record and keep nothing between calls '
                    '(no static-storage write in any data source or what it reaches)', floor=30)
+    chk.rule('S5', 'cmdline and filename leave their result NUL-terminated on every return path (the scratch buffer is '
+                   'reused between tags and calls)', floor=2)
     chk.rule('S4', 'cmdline guards argv == NULL and argv[0] == NULL before using them, and the guarded outcome falls '
                    'back to the path', floor=2)
     chk.explanation = (
@@ -116,6 +118,18 @@ def run(ctx):
                     direct.append((f, n))
         chk.ob('S3', 'record-only-through-getter', not direct, direct[0][1].where() if direct else '', '',
                '%s accesses the global record directly' % (direct[0][0].name if direct else ''), nontrivial=False)
+        # ---- S5: the two data sources terminate what they write (nothing of the reused buffer shows) ----
+        from engine import terminate
+        memo = {}
+        for dn in ('snoopy_datasource_cmdline', 'snoopy_datasource_filename'):
+            df = prog.func(dn)
+            if df is None:
+                continue
+            okr, node = terminate.result_terminated(prog, df, 0, memo)
+            chk.ob('S5', 'result-terminated[%s]' % dn, okr, (node or df.body).where(), dn,
+                   '%s can return after filling the result buffer without a terminator: the reused scratch buffer still '
+                   'holds text of an earlier, longer exec, which then follows the value in the record' % dn,
+                   how='last write to the result buffer on every return path is a terminating one')
         # ---- S4 ------------------------------------------------------------------------
         CM = prog.func('snoopy_datasource_cmdline')
         if CM is not None:
